@@ -9,6 +9,7 @@ import (
 	"crypto/tls"
 	"crypto/x509"
 	"fmt"
+	"strings"
 	"testing"
 	"time"
 
@@ -100,6 +101,9 @@ type ctx struct {
 	pki   *world.PKI
 	ok    *world.Hop
 	okTLS *world.Hop
+	// ppDelay > 0: the PROXY header is sent in two parts (ppCut octets, then the rest) ppDelay apart
+	ppDelay time.Duration
+	ppCut   int
 }
 
 // connect opens a client connection and advances it through the listener layers up to (not including)
@@ -125,7 +129,19 @@ func (c *ctx) open(stall string) *peerConn {
 			raw.Send([]byte(ppHeader[:k]))
 			return pc
 		}
-		raw.Send([]byte(ppHeader))
+		if c.ppDelay > 0 {
+			// a slow but legitimate PROXY header: it is completed just inside its own limit; the limits of the
+			// later phases (TLS handshake, request head, idle) count from the end of this phase
+			raw.Send([]byte(ppHeader[:c.ppCut]))
+			world.Settle(c.ppDelay)
+			if pc.closedByProxy() {
+				c.x.Failf("closed-before-limit/proxy-protocol-header", "stack %s: a peer that had sent %d bytes of its PROXY header was closed within %v, the header limit is %v", c.stack, c.ppCut, c.ppDelay, ppTO)
+				return nil
+			}
+			raw.Send([]byte(ppHeader[c.ppCut:]))
+		} else {
+			raw.Send([]byte(ppHeader))
+		}
 	}
 	if tl {
 		var k int
@@ -306,6 +322,13 @@ func scenario(x *explore.X, everyOffset bool) {
 	if helloStall {
 		quiet = []time.Duration{0, tlsTO + time.Second, idleTO - time.Millisecond}[x.Choose("quiet-before-hello", 3)]
 	}
+	// a stall in a later phase of a PROXY-protocol listener may follow a PROXY header that itself took almost
+	// all of its own limit (one stalled peer only: its phases are then at known instants)
+	if (stack == "proxy-protocol" || stack == "proxy-protocol+tls") && !strings.HasPrefix(sp.name, "pp-") && npeers == 1 {
+		if k := x.Choose("slow-proxy-header", 3); k > 0 {
+			c.ppDelay, c.ppCut = ppTO-time.Millisecond, []int{0, 0, 20}[k]
+		}
+	}
 	t0 := time.Now()
 	var stalled []*peerConn
 	for i := 0; i < npeers; i++ {
@@ -318,9 +341,16 @@ func scenario(x *explore.X, everyOffset bool) {
 		}
 		pc := c.open(first)
 		if pc == nil {
+			if c.ppDelay > 0 {
+				cleanup(x, w, c, stalled, nil)
+			}
 			return
 		}
 		stalled = append(stalled, pc)
+	}
+	if c.ppDelay > 0 {
+		t0 = time.Now() // the later phases count from the end of the PROXY header
+		c.ppDelay = 0   // the probe is prompt
 	}
 	if helloStall {
 		world.Settle(quiet)
